@@ -491,3 +491,35 @@ Proof.
   rewrite E. destruct (Qltb cutoff (seconds TNum (snd e))); cbn [filter fst snd]; [|exact IH].
   destruct (Nat.eqb (fst e) i); cbn [length]; rewrite IH; reflexivity.
 Qed.
+
+(* ---- the cutoff is an instant, however it is written ---- *)
+
+Lemma Qltb_compat a a' t : a == a' -> Qltb a t = Qltb a' t.
+Proof. intro E. unfold Qltb. rewrite E. reflexivity. Qed.
+
+Lemma after_cutoff_compat rep a a' t : a == a' -> after_cutoff rep a t = after_cutoff rep a' t.
+Proof.
+  intro E. destruct rep as [|r]; unfold after_cutoff; apply Qltb_compat; [exact E|]. rewrite E. reflexivity.
+Qed.
+
+Lemma cutoff_same_instant_l : forall ni rep c1 c2 log, cut_instant c1 == cut_instant c2 ->
+  tb_counts ni rep (cut_instant c1) log = tb_counts ni rep (cut_instant c2) log.
+Proof.
+  intros ni rep c1 c2 log E. unfold tb_counts.
+  rewrite (filter_ext _ _ (fun e => after_cutoff_compat rep _ _ (snd e) E)). reflexivity.
+Qed.
+
+(* an interaction between the instant and the clock reading taken as UTC: kept by the cutoff's instant when the
+   offset is positive (and dropped by the misreading), dropped when it is negative (and kept by the misreading) *)
+Lemma cutoff_offset_counts_l : forall c t,
+  (cut_instant c < t -> t <= c_wall c ->
+     after_cutoff TNum (cut_instant c) t = true /\ after_cutoff TNum (c_wall c) t = false) /\
+  (c_wall c < t -> t <= cut_instant c ->
+     after_cutoff TNum (cut_instant c) t = false /\ after_cutoff TNum (c_wall c) t = true).
+Proof.
+  intros c t. unfold after_cutoff. split; intros A B; split;
+    first [apply Qltb_lt; assumption | apply Qltb_nlt; assumption].
+Qed.
+
+Lemma cutoff_misread_shift_l : forall c, cut_instant {| c_wall := c_wall c; c_off := 0 |} == cut_instant c + c_off c.
+Proof. intro c. unfold cut_instant. cbn. ring. Qed.
